@@ -5,9 +5,11 @@ import (
 	"encoding/json"
 	"fmt"
 	"os"
+	"regexp"
 	"sort"
 	"strings"
 	"sync"
+	"time"
 
 	"encoding/hex"
 	"github.com/elnosh/gonuts/cashu"
@@ -272,6 +274,80 @@ type schedScn struct {
 	custom func(prefix []int) sched.Res
 }
 
+// withKeys: executions compute a state key at every decision past the prefix (unbounded pass with state pruning)
+var schedWithKeys bool
+
+var reVolatile = regexp.MustCompile(`"Expiry":\d+|"dleq":\{[^}]*\}`)
+
+// schedKeyFns returns the shared-state and per-thread renderers of E1's state key. Everything random in an execution
+// (quote ids, payment hashes, invoices, preimages) is renamed by creation index; expiry times and DLEQ nonces are dropped
+// (no code path of a scenario reads them back into a decision).
+func schedKeyFns(w *mintops.W) (func() string, func(int64) string) {
+	replacer := func() *strings.Replacer {
+		var pairs []string
+		add := func(from, to string) {
+			if from != "" {
+				pairs = append(pairs, from, to)
+			}
+		}
+		for i, q := range w.Quotes {
+			add(q.Q.PaymentRequest, fmt.Sprintf("<qreq%d>", i))
+			add(q.Q.PaymentHash, fmt.Sprintf("<qhash%d>", i))
+			add(q.Q.Id, fmt.Sprintf("<q%d>", i))
+			if inv := w.LN.Invoices[q.Q.PaymentHash]; inv != nil {
+				add(inv.Preimage, fmt.Sprintf("<qpre%d>", i))
+			}
+		}
+		for i, m := range w.Melts {
+			add(m.Q.InvoiceRequest, fmt.Sprintf("<mreq%d>", i))
+			add(m.Hash, fmt.Sprintf("<mhash%d>", i))
+			add(m.Q.PaymentHash, fmt.Sprintf("<mhash%d>", i))
+			add(m.Q.Id, fmt.Sprintf("<m%d>", i))
+			if inv := w.LN.Invoices[m.Hash]; inv != nil {
+				add(inv.Preimage, fmt.Sprintf("<mpre%d>", i))
+			}
+		}
+		return strings.NewReplacer(pairs...)
+	}
+	shared := func() string {
+		rp := replacer()
+		t, err := w.ReadTables()
+		if err != nil {
+			return "ERR " + err.Error() + fmt.Sprint(time.Now().UnixNano()) // never merges
+		}
+		var parts []string
+		for y, wit := range t.Spent {
+			parts = append(parts, "S "+y+" "+wit)
+		}
+		for y, mq := range t.Pending {
+			parts = append(parts, "P "+y+" "+mq)
+		}
+		for id, st := range t.MintQ {
+			parts = append(parts, "Q "+id+" "+st)
+		}
+		for id, st := range t.MeltQ {
+			parts = append(parts, "M "+id+" "+st[0]+" "+st[1])
+		}
+		for b, sg := range t.Sigs {
+			parts = append(parts, fmt.Sprintf("B %s %d %s", b, sg.Amount, sg.Id))
+		}
+		for _, k := range t.Keysets {
+			parts = append(parts, fmt.Sprintf("K %s %v %d", k.Id, k.Active, k.InputFeePpk))
+		}
+		for i := range parts {
+			parts[i] = rp.Replace(parts[i])
+		}
+		sort.Strings(parts)
+		return strings.Join(parts, ";") + "##" + w.LN.StateKey(rp.Replace)
+	}
+	results := func(g int64) string {
+		rp := replacer()
+		r := strings.Join(w.M.DB.ResultsOf(g), "\n") + "\n~\n" + strings.Join(w.LN.ResultsOf(g), "\n")
+		return rp.Replace(reVolatile.ReplaceAllString(r, ""))
+	}
+	return shared, results
+}
+
 func execSched(sc *schedScn, prefix []int) (res sched.Res) {
 	dir, _ := os.MkdirTemp(rt.ScratchRoot(), "e1-")
 	defer os.RemoveAll(dir)
@@ -287,6 +363,10 @@ func execSched(sc *schedScn, prefix []int) (res sched.Res) {
 	w.M.DB.After = prevAfter
 	w.LN.Hook = func(m, method string) { s.Point("ln:" + method) }
 	sc.setup(x)
+	if schedWithKeys {
+		w.M.DB.KeepRes, w.LN.KeepRes = true, true
+		s.KeyFn, s.ResultsFn = schedKeyFns(w)
+	}
 	if len(w.V) > 0 {
 		// the sequential set-up already breaks an oracle: report that, nothing to schedule
 		for _, v := range w.V {
@@ -808,6 +888,7 @@ func schedWorker(job json.RawMessage) (any, error) {
 	if sc == nil {
 		return nil, fmt.Errorf("unknown scenario %q", j.Scn)
 	}
+	schedWithKeys = j.Keys
 	// a prefix that does not replay (the enabled set at some step differed: a thread was seen blocked / not blocked at a
 	// different moment) is a harness-level timing problem, not a property of the code: the execution is repeated on a
 	// fresh instance before it is given up as a harness error
@@ -892,6 +973,25 @@ func runSched(c *rt.Ctx, prop string, names []string, bound int) {
 		st := sched.Explore(c, prop, n, bound)
 		sched.Report(c, n, bound, st)
 		fmt.Printf("  schedules %-32s bound %d/%d executions %d outcomes %d overlapping %d complete=%v\n", n, st.BoundDone, bound, st.Executions, len(st.Outcomes), st.Collisions, st.Complete)
+	}
+}
+
+// runSchedAll: bounded search (as runSched) followed by the unbounded search with state pruning, per scenario.
+func runSchedAll(c *rt.Ctx, prop string, names []string, bound int) {
+	for _, n := range names {
+		if c.Expired() {
+			c.Exhaustive = false
+			return
+		}
+		st := sched.Explore(c, prop, n, bound)
+		sched.Report(c, n, bound, st)
+		fmt.Printf("  schedules %-32s bound %d/%d executions %d outcomes %d overlapping %d complete=%v\n", n, st.BoundDone, bound, st.Executions, len(st.Outcomes), st.Collisions, st.Complete)
+		if sc := schedScns[n]; sc == nil || sc.custom != nil || !st.Complete {
+			continue
+		}
+		all := sched.ExploreAll(c, prop, n, st.Outcomes)
+		sched.ReportAll(c, n, all)
+		fmt.Printf("  schedules %-32s unbounded  executions %d state-keys %d cut %d outcomes %d max-preemptions %d complete=%v\n", n, all.Executions, all.States, all.Pruned, len(all.Outcomes), all.MaxPre, all.Complete)
 	}
 }
 
